@@ -81,10 +81,13 @@ Proof.
 Qed.
 
 Lemma vol2d_closed radius l : vol2d radius l = PI * radius ^ 2 * (1 + sumsq l / 2).
-Proof. unfold vol2d. cbv zeta. rewrite sum_flat_sumsq. ring. Qed.
+Proof. unfold vol2d. cbv zeta. rewrite sum_flat_sumsq. field. Qed.
 
 Lemma set_vol2d_closed volume l : set_vol2d volume l = sqrt (volume / (PI * (1 + sumsq l / 2))).
-Proof. unfold set_vol2d. cbv zeta. rewrite sum_flat_sumsq. try reflexivity; (do 2 f_equal; ring). Qed.
+Proof.
+  unfold set_vol2d. cbv zeta. rewrite sum_flat_sumsq.
+  first [reflexivity | f_equal; f_equal; field | f_equal; f_equal; f_equal; field].
+Qed.
 
 Lemma sumsq_nonneg l : 0 <= sumsq l.
 Proof. induction l as [|ab l IH]; simpl; [lra|]. nra. Qed.
@@ -109,7 +112,7 @@ Definition sumsq_w (w : nat -> R) (n : nat) (l : list (R * R)) : R :=
 
 Lemma perim_approx2d_closed radius l :
   perim_approx2d radius l = PI * radius * (4 + sumsq_w w_sq 1 l) / 2.
-Proof. unfold perim_approx2d. cbv zeta. rewrite (fold_modes_sum _ _ perim_step_eq). unfold sumsq_w, Rdiv. ring. Qed.
+Proof. unfold perim_approx2d. cbv zeta. rewrite (fold_modes_sum _ _ perim_step_eq). unfold sumsq_w. field. Qed.
 
 (* surface_area: the two accumulators are r/R0 and its phi-derivative *)
 Lemma line2d_step_eq phi n ab st :
